@@ -17,6 +17,14 @@ Inductive litres :=
 (* result of re.compile(pattern).search(text) *)
 Inductive reres := RMatch (b : bool) | RError.
 
+(* nodes.py:648-651: the exception classes of literal_eval that typed_value
+   catches (ValueError and SyntaxError are LFail; MemoryError has no pycrash
+   name and cannot be shipped by the harness) *)
+Definition lit_crash_caught (c : pycrash) : bool :=
+  match c with TypeError | RecursionError | ValueError => true | _ => false end.
+
+Inductive hay := HVal (v : pyval) | HSBool (b : bool).
+
 Section Oracles.
 Variable lit : string -> outcome litres.
 Variable re_search : string -> string -> outcome reres.
@@ -39,9 +47,23 @@ Definition typed_value (value : pyval) : outcome pyval :=
           match r with
           | LVal v => Ok v
           | LFail => Ok value
-          | LCrash c => Raise (PyCrash c)
+          | LCrash c => if lit_crash_caught c then Ok value else Raise (PyCrash c)
           end
       end
+  end.
+
+(* A haystack as the operators receive it: any scalar, or ruamel.yaml's
+   ScalarBoolean -- the int subclass wrapping an anchored YAML boolean, which
+   pyval files under PInt but searches.py:42-44 tells apart
+   (isinstance(typed_haystack, ScalarBoolean) -> bool(typed_haystack)). *)
+Definition hay_pyval (h : hay) : pyval :=
+  match h with HVal v => v | HSBool b => PInt (Z_of_bool b) end.
+
+Definition typed_haystack (h : hay) : outcome pyval :=
+  do t <- typed_value (hay_pyval h);
+  match h with
+  | HSBool b => Ok (PBool b)
+  | HVal _ => Ok t
   end.
 
 Definition is_num_inst (v : pyval) : bool := is_int_inst v || is_float_inst v.
@@ -58,29 +80,47 @@ Definition ordered (cmp : pyval -> pyval -> outcome bool) (strcmp : string -> st
     if is_num_inst tn then cmp th tn else Ok false
   else Ok (strcmp (py_str th) needle).
 
-Definition search_matches (m : smethod) (needle : string) (haystack : pyval) : outcome bool :=
-  do th <- typed_value haystack;
-  do tn <- typed_value (PStr needle);
+(* Searches.search_matches(method, needle, haystack).  The path parser always
+   hands over a str needle; KeywordSearches.max/min hand over the running
+   match_value, which is any scalar: str(needle) is then its text, and the
+   str-only operations (startswith / endswith / in / re.compile) raise TypeError
+   on a non-str. *)
+Definition needle_text (needle : pyval) : outcome string :=
+  match needle with
+  | PStr s => Ok s
+  | _ => Raise (PyCrash TypeError)
+  end.
+
+Definition search_matches_g (m : smethod) (needle : pyval) (haystack : hay) : outcome bool :=
+  do th <- typed_haystack haystack;
+  do tn <- typed_value needle;
   match m with
   | MEquals =>
       if is_bool_inst th && type_is_bool tn then Ok (py_eq th tn)
       else if is_int_inst th && type_is_int tn then Ok (py_eq th tn)
       else if is_float_inst th && type_is_float tn then Ok (py_eq th tn)
-      else Ok (String.eqb (py_str th) needle)
-  | MStartsWith => Ok (starts_with needle (py_str th))
-  | MEndsWith => Ok (ends_with needle (py_str th))
-  | MContains => Ok (str_contains needle (py_str th))
-  | MGt => ordered py_gt (fun a b => str_ltb b a) th tn needle
-  | MLt => ordered py_lt str_ltb th tn needle
-  | MGe => ordered py_ge (fun a b => str_leb b a) th tn needle
-  | MLe => ordered py_le str_leb th tn needle
+      else Ok (String.eqb (py_str th) (py_str needle))
+  | MStartsWith => do n <- needle_text needle; Ok (starts_with n (py_str th))
+  | MEndsWith => do n <- needle_text needle; Ok (ends_with n (py_str th))
+  | MContains => do n <- needle_text needle; Ok (str_contains n (py_str th))
+  | MGt => ordered py_gt (fun a b => str_ltb b a) th tn (py_str needle)
+  | MLt => ordered py_lt str_ltb th tn (py_str needle)
+  | MGe => ordered py_ge (fun a b => str_leb b a) th tn (py_str needle)
+  | MLe => ordered py_le str_leb th tn (py_str needle)
   | MRegex =>
-      do r <- re_search needle (py_str th);
+      do n <- needle_text needle;
+      do r <- re_search n (py_str th);
       match r with
       | RMatch b => Ok b
       | RError => Raise (YPE Generic)     (* re.error is wrapped into YAMLPathException (searches.py) *)
       end
   end.
+
+Definition search_matches_h (m : smethod) (needle : string) (haystack : hay) : outcome bool :=
+  search_matches_g m (PStr needle) haystack.
+
+Definition search_matches (m : smethod) (needle : string) (haystack : pyval) : outcome bool :=
+  search_matches_h m needle (HVal haystack).
 
 End Oracles.
 
